@@ -1,0 +1,116 @@
+//go:build verif
+
+// Package verifhook holds instrumentation points used by the external
+// verification harness. This file is compiled only with the build tag "verif".
+package verifhook
+
+import (
+	"os"
+	"runtime"
+	"strconv"
+	"strings"
+	"sync"
+	"sync/atomic"
+	"syscall"
+	"time"
+)
+
+var (
+	gateFn  atomic.Value // func(pt string)
+	noteFn  atomic.Value // func(pt string, s string, n int)
+	crashMu sync.Mutex
+	crashPt string
+	crashN  int
+	crashOn bool
+	hits    = map[string]int{}
+	perturb uint64
+)
+
+func init() {
+	if v := os.Getenv("VERIF_KILL"); v != "" {
+		if i := strings.LastIndexByte(v, ':'); i > 0 {
+			crashPt = v[:i]
+			crashN, _ = strconv.Atoi(v[i+1:])
+			crashOn = true
+		}
+	}
+	if v := os.Getenv("VERIF_PERTURB"); v != "" {
+		n, _ := strconv.ParseUint(v, 10, 64)
+		atomic.StoreUint64(&perturb, n|1)
+	}
+}
+
+// SetGate installs the gate callback (nil to remove).
+func SetGate(f func(pt string)) { gateFn.Store(f) }
+
+// SetNote installs the note callback (nil to remove).
+func SetNote(f func(pt string, s string, n int)) { noteFn.Store(f) }
+
+// SetPerturb sets the schedule perturbation seed (0 = off).
+func SetPerturb(seed uint64) { atomic.StoreUint64(&perturb, seed) }
+
+// Gate is a point where a harness may block the calling goroutine.
+func Gate(pt string) {
+	Yield(pt)
+	if f, _ := gateFn.Load().(func(string)); f != nil {
+		f(pt)
+	}
+}
+
+// Note records that a point was passed.
+func Note(pt string, s string, n int) {
+	if f, _ := noteFn.Load().(func(string, string, int)); f != nil {
+		f(pt, s, n)
+	}
+}
+
+// Hits returns how many times each crash point was passed.
+func Hits() map[string]int {
+	crashMu.Lock()
+	defer crashMu.Unlock()
+	m := make(map[string]int, len(hits))
+	for k, v := range hits {
+		m[k] = v
+	}
+	return m
+}
+
+// Crash kills the process with SIGKILL at the n-th hit of the point named in
+// VERIF_KILL=<pt>:<n>.
+func Crash(pt string) {
+	crashMu.Lock()
+	hits[pt]++
+	n := hits[pt]
+	kill := crashOn && pt == crashPt && n == crashN
+	crashMu.Unlock()
+	if kill {
+		syscall.Kill(os.Getpid(), syscall.SIGKILL)
+		time.Sleep(time.Hour)
+	}
+}
+
+// Yield perturbs the schedule pseudo-randomly when a seed is set.
+func Yield(pt string) {
+	for {
+		s := atomic.LoadUint64(&perturb)
+		if s == 0 {
+			return
+		}
+		x := s
+		x ^= x << 13
+		x ^= x >> 7
+		x ^= x << 17
+		if x == 0 {
+			x = 1
+		}
+		if atomic.CompareAndSwapUint64(&perturb, s, x) {
+			switch x % 8 {
+			case 0, 1:
+				runtime.Gosched()
+			case 2:
+				time.Sleep(time.Duration(x>>8%50) * time.Microsecond)
+			}
+			return
+		}
+	}
+}
